@@ -222,6 +222,18 @@ class Scanner:
                     dn = self._dotted(d.func if isinstance(d, ast.Call) else d) or ""
                     if dn.endswith("lru_cache") or dn.endswith("cache"):
                         classes.add(PS_MEMO); notes.append(f"{node.name}: memoised ({dn})")
+                        # a memoised function that writes object / class state is not a function of its arguments
+                        for sub in ast.walk(node):
+                            tg = sub.targets if isinstance(sub, ast.Assign) else [sub.target] if isinstance(sub, (ast.AugAssign, ast.AnnAssign)) else []
+                            for t in tg:
+                                base_ = t.value if isinstance(t, ast.Subscript) else t
+                                dn2 = self._dotted(base_) or ""
+                                if dn2.startswith("self.") or dn2.startswith("cls."):
+                                    classes.add(PS_SHARED); notes.append(f"{node.name}: memoised but writes {dn2} (line {sub.lineno})")
+                            if isinstance(sub, ast.Call) and isinstance(sub.func, ast.Attribute) and sub.func.attr in MUTATORS:
+                                dn2 = self._dotted(sub.func.value) or ""
+                                if dn2.startswith("self.") or dn2.startswith("cls."):
+                                    classes.add(PS_SHARED); notes.append(f"{node.name}: memoised but calls {dn2}.{sub.func.attr}() (line {sub.lineno})")
             if isinstance(node, ast.Call):
                 dn = self._dotted(node.func) or ""
                 last = dn.rsplit(".", 1)[-1] if dn else (node.func.attr if isinstance(node.func, ast.Attribute) else "")
@@ -422,6 +434,22 @@ def source_facts(repo_src: pathlib.Path):
     # 4. the line post-processors are reset per file
     facts["line_pp_reset_per_file"] = line_pp_reset_per_file(repo_src)
 
+    # 7. the HTML natural sort is total: ties of the natural key are broken by the plain name
+    fn = find_def("nunavut/lang/html/__init__.py", "_natural_sort")
+    total = False
+    for node in ast.walk(fn):
+        if isinstance(node, ast.Call) and isinstance(node.func, ast.Name) and node.func.id == "sorted":
+            for k in node.keywords:
+                if k.arg == "key" and isinstance(k.value, ast.Lambda) and isinstance(k.value.body, ast.Tuple) and len(k.value.body.elts) >= 2:
+                    last = k.value.body.elts[-1]
+                    if isinstance(last, ast.Call) and isinstance(last.func, ast.Name) and last.func.id == "key":
+                        total = True
+    facts["natural_sort_total"] = total
+
+    # 8. class-level / module-level mutable containers that are written at run time (process-wide state)
+    facts["shared_containers"] = shared_containers(repo_src)
+    facts["no_unlisted_shared_containers"] = all(x["id"] in SHARED_CONTAINER_WHITELIST for x in facts["shared_containers"])
+
     # 6. templates are compiled lazily: no generator constructor asks the environment for a template
     lazy = True
     jt = ast.parse((repo_src / "nunavut/jinja/__init__.py").read_text(encoding="utf-8"))
@@ -457,6 +485,87 @@ def source_facts(repo_src: pathlib.Path):
                 stores_on_self = True
     facts["cached_property_per_instance"] = bool(stores_in_instance and not stores_on_self)
     return facts
+
+
+# process-wide containers that are known and modelled / harmless (id = module:Class.attr or module:NAME)
+SHARED_CONTAINER_WHITELIST = {
+}
+
+
+def shared_containers(repo_src):
+    """Class attributes / module globals bound to a mutable container (dict/list/set literal or constructor) that some function
+    of the package mutates (item / attribute assignment, mutating method, `global` rebinding)."""
+    ctor = {"dict", "list", "set", "defaultdict", "OrderedDict", "deque", "Counter", "WeakValueDictionary", "WeakKeyDictionary"}
+
+    def is_container(v):
+        if isinstance(v, (ast.Dict, ast.List, ast.Set, ast.DictComp, ast.ListComp, ast.SetComp)):
+            return True
+        if isinstance(v, ast.Call):
+            dn = (Scanner._dotted(v.func) or "").rsplit(".", 1)[-1]
+            return dn in ctor
+        return False
+
+    out = []
+    for f in sorted((repo_src / "nunavut").rglob("*.py")):
+        rel = f.relative_to(repo_src)
+        if "jinja2" in rel.parts or "markupsafe" in rel.parts:
+            continue
+        tree = ast.parse(f.read_text(encoding="utf-8"))
+        mod = ".".join(rel.with_suffix("").parts)
+        mod_names = set()
+        for st in tree.body:
+            tgs = st.targets if isinstance(st, ast.Assign) else [st.target] if isinstance(st, ast.AnnAssign) and st.value is not None else []
+            if tgs and is_container(st.value):
+                mod_names |= {t.id for t in tgs if isinstance(t, ast.Name)}
+        class_attrs = {}
+        for cl in [n for n in ast.walk(tree) if isinstance(n, ast.ClassDef)]:
+            for st in cl.body:
+                tgs = st.targets if isinstance(st, ast.Assign) else [st.target] if isinstance(st, ast.AnnAssign) and st.value is not None else []
+                if tgs and is_container(st.value):
+                    for t in tgs:
+                        if isinstance(t, ast.Name):
+                            class_attrs.setdefault(cl.name, set()).add(t.id)
+        all_class_attr = {a for v in class_attrs.values() for a in v}
+
+        def owner(expr):
+            """id of the shared container an expression denotes, or None."""
+            dn = Scanner._dotted(expr) or ""
+            parts = dn.split(".")
+            if len(parts) == 1 and parts[0] in mod_names:
+                return f"{mod}:{parts[0]}"
+            if len(parts) == 2 and parts[1] in all_class_attr and (parts[0] in ("cls", "self") or parts[0] in class_attrs):
+                cn = [c for c, v in class_attrs.items() if parts[1] in v][0]
+                return f"{mod}:{cn}.{parts[1]}"
+            return None
+
+        for cl_or_fn in ast.walk(tree):
+            if not isinstance(cl_or_fn, (ast.FunctionDef, ast.AsyncFunctionDef)):
+                continue
+            # an instance attribute of the same name assigned in this function shadows the class attribute
+            rebinds = {Scanner._dotted(t) for n in ast.walk(cl_or_fn) if isinstance(n, ast.Assign) for t in n.targets if isinstance(t, ast.Attribute)}
+            aliases = {}
+            for n in ast.walk(cl_or_fn):
+                if isinstance(n, ast.Assign) and len(n.targets) == 1 and isinstance(n.targets[0], ast.Name) and owner(n.value):
+                    aliases[n.targets[0].id] = owner(n.value)
+
+            def own(expr):
+                if isinstance(expr, ast.Name) and expr.id in aliases:
+                    return aliases[expr.id]
+                o = owner(expr)
+                if o and (Scanner._dotted(expr) or "").startswith("self.") and Scanner._dotted(expr) in rebinds:
+                    return None
+                return o
+            for n in ast.walk(cl_or_fn):
+                tg = n.targets if isinstance(n, ast.Assign) else [n.target] if isinstance(n, (ast.AugAssign, ast.AnnAssign)) else []
+                for t in tg:
+                    if isinstance(t, ast.Subscript) and own(t.value):
+                        out.append({"id": own(t.value), "where": f"{mod}.{cl_or_fn.name}:{n.lineno}", "how": "item assignment"})
+                if isinstance(n, ast.Call) and isinstance(n.func, ast.Attribute) and n.func.attr in MUTATORS and own(n.func.value):
+                    out.append({"id": own(n.func.value), "where": f"{mod}.{cl_or_fn.name}:{n.lineno}", "how": f".{n.func.attr}()"})
+                if isinstance(n, ast.Global):
+                    for nm in n.names:
+                        out.append({"id": f"{mod}:{nm}", "where": f"{mod}.{cl_or_fn.name}:{n.lineno}", "how": "global statement"})
+    return out
 
 
 def line_pp_reset_per_file(repo_src):
@@ -654,6 +763,8 @@ class LangConv:
                 sort_off = any((k.key == "sort" and not (isinstance(k.value, n.Const) and k.value.value is True)) for k in node.kwargs) or bool(node.args)
                 if self.facts["include_generator_sorts"] and not sort_off:
                     removed |= {HASHORDER}
+            if short in ("natural_sort_namespace", "natural_sort_type") and not self.facts["natural_sort_total"]:
+                removed -= {HASHORDER}      # ties keep the iteration order of the input
             if short == "map" and node.args and isinstance(node.args[0], n.Const) and isinstance(node.args[0].value, str):
                 # map("filtername") / map(attribute=...) applies another filter by name
                 fname = node.args[0].value
@@ -837,7 +948,18 @@ class LangConv:
                 out = self.seq([out, ("ite", ("cond", self.leaf(node.iter, scope, kind, "iter-empty")), ("nil",), self.stmts(node.else_, scope, kind))])
             return out
         if isinstance(node, n.Assign):
-            return self.expr_tpl(node.node, scope, kind, "assign")
+            t = self.expr_tpl(node.node, scope, kind, "assign")
+            if macro is None and (kind, file) in self.import_only and any(
+                    isinstance(x, n.Name) and x.name in ("nunavut", "now_utc") and self.lookup_var(scope, x.name) is None for x in node.node.find_all(n.Name)):
+                # a template-level variable of a template that is only ever imported: Jinja caches the module per environment, the
+                # value is whatever the generator state was at the FIRST import
+                lid = len(self.leaves)
+                self.leaves.append({"id": lid, "lang": self.lang, "kind": kind, "file": file, "macro": None, "line": node.lineno, "role": "module-level-set",
+                                    "reads": [PS_SHARED], "removes": [], "effective": [PS_SHARED],
+                                    "notes": ["template-level set of generator state in an import-only template (cached module)"],
+                                    "via": {PS_SHARED: ["set:" + ",".join(sorted(x.name for x in node.target.find_all(n.Name))) if hasattr(node.target, "find_all") else "set"]}})
+                t = self.seq([t, ("ite", ("cond", ("leaf", lid)), ("nil",), ("nil",))])
+            return t
         if isinstance(node, n.AssignBlock):
             body = self.stmts(node.body, scope, kind)
             if node.filter is not None:
@@ -967,6 +1089,10 @@ class LangConv:
                 imps.append(i)
             self.imports_of[key] = imps
         self.all_templates = sorted(seen)
+        imported = {(k, i.template.value) for k_, imps in self.imports_of.items() for i in imps for k in [k_[0]] if isinstance(i, (n.Import, n.FromImport))}
+        included = {(k_[0], i.template.value) for k_, imps in self.imports_of.items() for i in imps if isinstance(i, n.Include)}
+        extended = {(k_[0], v) for k_, v in self.extends.items() if v is not None}
+        self.import_only = imported - included - extended
         import pydsdl as _pydsdl
         _classes, _todo = {"Any", "Namespace"}, [_pydsdl.SerializableType]
         while _todo:
@@ -1370,6 +1496,10 @@ def emit_top(facts) -> str:
             f"def linePPResetPerFile : Bool := {b(facts['line_pp_reset_per_file'])}",
             "/-- `cached_property.__get__` stores the value in `instance.__dict__` and nothing on the descriptor. -/",
             f"def cachedPropertyPerInstance : Bool := {b(facts['cached_property_per_instance'])}",
+            "/-- `_natural_sort` (HTML) breaks ties of its natural key by the plain name: the order it produces is total. -/",
+            f"def naturalSortTotal : Bool := {b(facts['natural_sort_total'])}",
+            "/-- No class-level / module-level mutable container is written at run time (beyond the listed, modelled ones). -/",
+            f"def noUnlistedSharedContainers : Bool := {b(facts['no_unlisted_shared_containers'])}",
             "/-- No generator constructor compiles templates (`get_template` & co. only at generation time). -/",
             f"def templatesCompiledLazily : Bool := {b(facts['templates_compiled_lazily'])}",
             "end NunavutVerif.Gen.TplFlows", ""]
